@@ -46,8 +46,11 @@ GR = {
                'LAYOUT: LI | LAYOUT LI | EMPTY;\nLI: WS | CM;\n'
                'terminals\nn: ;\nWS: /\\s+/;\nCM: /\\/\\/.*/;\n'),
     "named": 'S: l=S "+" r=T | t=T;\nT: n;\nterminals\nn: ;\n',
+    # lexical overlap: the finish flags a table was built with matter
+    "overlap": 'S: S "+" S | n | "nn" | n n;\nterminals\nn: ;\n',
 }
-PROBES = ["", "n", "n+n", "n +n", "+", "n+", "nn", "n+n+n", " n //c\n+n", "n+x+n"]
+PROBES = ["", "n", "n+n", "n +n", "+", "n+", "nn", "n+n+n", " n //c\n+n", "n+x+n",
+          "nn+n"]
 ACTIONS = {"n": act_n}
 
 
@@ -63,6 +66,7 @@ KINDS = {
     "GLR": ("glr", {}),
     "GLRrec": ("glr", {"error_recovery": True}),
     "GLRslr": ("glr", {"tables": parglare.SLR}),
+    "GLRld": ("glr", {"lexical_disambiguation": True}),
 }
 
 
